@@ -3,7 +3,8 @@
    Sem.run_binding w p = Def v then the C++ text printed for c, executed in w, returns v.  The property is decided per generated
    program and world by executing the real output (vlib/c01.py); the theorems below fix the reference semantics the executions
    are compared with -- the points the property statement singles out. *)
-From QV Require Import model.Base model.Lang model.Types model.Tir model.Ceval model.Builder model.Sem proofs.SemProofs proofs.ScopeProofs proofs.FrameProofs.
+From QV Require Import model.Base model.Lang model.Types model.Tir model.Floats model.Ceval model.Builder model.Sem proofs.SemProofs proofs.ScopeProofs proofs.FrameProofs.
+From Coq Require Import Floats.SpecFloat.
 Open Scope Z_scope.
 
 (* int arithmetic: the exact mathematical result, in range -- or undefined (32-bit overflow is never a value) *)
@@ -104,4 +105,28 @@ Example C01_ex :
              (Some (1%nat, [SIf (EMember EThis "b") (SBlock [SExpr (EAssign (EIdent "r") (EBinary BRem (EUnary UMinus (EMember EThis "i")) (EInt 4))); SBreak false]) None]));
      SReturn (Some (EIdent "r"))]) in
   run_binding [] 0 w "i" (body 1%N) = Def (VI (-3)) /\ run_binding [] 0 w "i" (body 2%N) = Def (VI 2) /\ run_binding [] 0 w "i" (body 9%N) = Def (VI (-3)).
+Proof. vm_compute. repeat split; reflexivity. Qed.
+
+(* double arithmetic (IEEE-754 binary64 through Coq's SpecFloat): + - * / are total -- never undefined, whatever the operands (division by zero
+   gives an infinity or a NaN) -- and a NaN is unordered: equal to nothing, itself included, so `x != x` is exactly the NaN test *)
+Theorem C01_partial_double_arith_total : forall op x y, match op with BAdd | BSub | BMul | BDiv => True | _ => False end ->
+  exists z, arith op (VD x) (VD y) = Def (VD z).
+Proof. intros op x y H. destruct op; try contradiction; eexists; reflexivity. Qed.
+Print Assumptions C01_partial_double_arith_total.
+
+Theorem C01_partial_nan_is_unordered : forall x y, sf_of_bits x = S754_nan ->
+  compare BEq (VD x) (VD y) = Def (VB false) /\ compare BNe (VD x) (VD y) = Def (VB true) /\
+  compare BLt (VD x) (VD y) = Def (VB false) /\ compare BLe (VD x) (VD y) = Def (VB false) /\
+  compare BGt (VD x) (VD y) = Def (VB false) /\ compare BGe (VD x) (VD y) = Def (VB false) /\
+  compare BNe (VD x) (VD x) = Def (VB true).
+Proof.
+  intros x y Hx. cbn [compare]. unfold f_eqb, f_ltb, f_leb, SFeqb, SFltb, SFleb. rewrite Hx. cbn [SFcompare].
+  destruct (sf_of_bits y); repeat split; reflexivity.
+Qed.
+Print Assumptions C01_partial_nan_is_unordered.
+
+(* 0.0 / 0.0 is such a NaN, and the cast of a double to int truncates toward zero and is undefined outside the int range *)
+Example C01_partial_double_examples :
+  sf_of_bits (f_div 0%N 0%N) = S754_nan /\ f_trunc 4613712683822510899%N = Some 2 /\ f_trunc (f_neg 4613712683822510899%N) = Some (-2) /\
+  f_of_Z 4294967295 = 4751297606873776128%N /\ f_trunc NAN_BITS = None.
 Proof. vm_compute. repeat split; reflexivity. Qed.
